@@ -89,11 +89,12 @@ func snakeCase(s string) string {
 }
 
 type ty struct {
-	k  string
-	n  int
-	el *ty
-	fs []field
-	rt reflect.Type
+	named bool // a declared named type (named.go): written `named T` on the wire, read as T by the model
+	k     string
+	n     int
+	el    *ty
+	fs    []field
+	rt    reflect.Type
 }
 
 var (
@@ -159,6 +160,9 @@ func structOf(fs []field) *ty {
 // hand-written spec types). Struct aliases are read from the json tag; a field without an
 // explicit name in its tag is outside the harness's universe (strcase is not modelled).
 func tyOf(rt reflect.Type) (*ty, error) {
+	if nt, ok := namedByRT[rt]; ok {
+		return nt, nil
+	}
 	switch rt {
 	case timeT:
 		return scalar("time"), nil
@@ -254,6 +258,20 @@ func unhx(s string) ([]byte, error) {
 }
 
 func (t *ty) wire(out *[]string) {
+	if t.named {
+		*out = append(*out, "named")
+	}
+	t.wireInner(out)
+}
+
+// inner: the descriptor without a leading `named`
+func (t *ty) inner() string {
+	var out []string
+	t.wireInner(&out)
+	return strings.Join(out, " ")
+}
+
+func (t *ty) wireInner(out *[]string) {
 	switch t.k {
 	case "ptr", "slice", "map":
 		*out = append(*out, t.k)
@@ -384,6 +402,16 @@ func parseTy(p *toks) (*ty, error) {
 	k, err := p.next()
 	if err != nil {
 		return nil, err
+	}
+	if k == "named" {
+		t, err := parseTy(p)
+		if err != nil {
+			return nil, err
+		}
+		if nt, ok := namedByWire[t.inner()]; ok {
+			return nt, nil
+		}
+		return nil, fmt.Errorf("no declared named type for %q", t.inner())
 	}
 	if _, ok := scalarRT[k]; ok {
 		return scalar(k), nil
